@@ -12,12 +12,11 @@ detached creator.  This file
   (`Reach`) and shows `attached_iff_reach`: under `CreatorOK`, one row per key and well-founded
   creator links among attached nodes (`AttachedWF`, which is necessary too:
   `attachedWF_of_reach`), a node is attached exactly when it is reachable from the root;
-* shows that the local invariant (with its companions: one row per key, no dangling creator,
-  dependencies never end in the root: `Forest`) is kept by every accepted request of the kernel
-  model except `detach` of the root, hence by every history without such a request
-  (`forest_reachable_partial`); `creatorOK_reachable_negation` is the witness that the exception
-  is needed *of the model*: `Node.detach` has no guard, in the code the `CHECK` constraints of the
-  `node` table reject the write.
+* shows that the local invariant (with its companions: one row per key, no dangling creator:
+  `Forest`) and the well-foundedness (`ForestWF`) are kept by every accepted request of the kernel
+  model, hence hold after every history (`forest_reachable`, `forestWF_reachable`), so that the
+  clause holds after every history (`detached_iff_not_reach_reachable`).  `detach` of the root is
+  not an exception: the CHECKs of the `node` table reject it (`detach_root_rejected`).
 
 The work is done on the list of `(key, creator, detached)` triples: `Lemmas/ReachSkel.lean` (the
 mathematics), `Lemmas/ReachDesc.lean` (the recursive walk of `RECURSIVELY_SET_DETACHED` is exact),
@@ -79,10 +78,6 @@ theorem init_skOK : Sk.OK KState.init.skel := by
     simp only [Option.some.injEq] at hc
     subst hc
     exact ⟨_, List.mem_singleton.2 rfl, rfl⟩
-
-theorem init_depsKindOK' : DepsKindOK KState.init := by
-  intro d hd
-  simp [KState.init] at hd
 
 /-! ## The invariant of `Trellis._check_consistency`, on the model -/
 
@@ -258,85 +253,82 @@ theorem skOK_iff (s : KState) : Sk.OK s.skel ↔ (KeysNodup s ∧ CreatorsExist 
 
 /-! ## The invariant through requests and histories -/
 
-/-- The local invariant with its companions: one row per key, dependencies link files with steps
-(so none ends in the root), no dangling creator. -/
-def Forest (s : KState) : Prop := KeysNodup s ∧ DepsKindOK s ∧ CreatorsExist s ∧ CreatorOK s
+/-- The local invariant with its companions: one row per key, no dangling creator. -/
+def Forest (s : KState) : Prop := KeysNodup s ∧ CreatorsExist s ∧ CreatorOK s
 
-theorem forest_iff (s : KState) : Forest s ↔ PQ Sk.OK s := by
-  unfold Forest PQ
-  rw [skOK_iff]
-  constructor
-  · rintro ⟨h1, h2, h3, h4⟩; exact ⟨h2, h1, h3, h4⟩
-  · rintro ⟨h2, h1, h3, h4⟩; exact ⟨h1, h2, h3, h4⟩
+theorem forest_iff (s : KState) : Forest s ↔ PQ Sk.OK s := (skOK_iff s).symm
 
-theorem init_forest : Forest KState.init := (forest_iff _).2 ⟨init_depsKindOK', init_skOK⟩
+theorem init_forest : Forest KState.init := (forest_iff _).2 init_skOK
 
-/-- Every accepted request other than `detach` of the root keeps the local invariant (with its
-companions). -/
-theorem exec_forest (cfg : KConfig) (r : Req) (s : KState) (res : KState × String) (hr : r ≠ .detach rootKey)
+/-- Every accepted request keeps the local invariant (with its companions). -/
+theorem exec_forest (cfg : KConfig) (r : Req) (s : KState) (res : KState × String)
     (hp : Forest s) (h : s.exec cfg r = .ok res) : Forest res.1 :=
-  (forest_iff _).2 (exec_skStable skStable_ok cfg r s res hr ((forest_iff _).1 hp) h)
+  (forest_iff _).2 (exec_skStable skStable_ok cfg r s res ((forest_iff _).1 hp) h)
 
-theorem exec_creatorOK (cfg : KConfig) (r : Req) (s : KState) (res : KState × String) (hr : r ≠ .detach rootKey)
-    (hk : KeysNodup s) (hd : DepsKindOK s) (he : CreatorsExist s) (hc : CreatorOK s)
+theorem exec_creatorOK (cfg : KConfig) (r : Req) (s : KState) (res : KState × String)
+    (hk : KeysNodup s) (he : CreatorsExist s) (hc : CreatorOK s)
     (h : s.exec cfg r = .ok res) : CreatorOK res.1 :=
-  (exec_forest cfg r s res hr ⟨hk, hd, he, hc⟩ h).2.2.2
+  (exec_forest cfg r s res ⟨hk, he, hc⟩ h).2.2
 
-theorem step_forest (cfg : KConfig) (r : Req) (s : KState) (hr : r ≠ .detach rootKey) (hp : Forest s) :
-    Forest (s.step cfg r) :=
-  (forest_iff _).2 (step_skStable skStable_ok cfg r s hr ((forest_iff _).1 hp))
+theorem step_forest (cfg : KConfig) (r : Req) (s : KState) (hp : Forest s) : Forest (s.step cfg r) :=
+  (forest_iff _).2 (step_skStable skStable_ok cfg r s ((forest_iff _).1 hp))
 
-theorem step_creatorOK (cfg : KConfig) (r : Req) (s : KState) (hr : r ≠ .detach rootKey)
-    (hk : KeysNodup s) (hd : DepsKindOK s) (he : CreatorsExist s) (hc : CreatorOK s) : CreatorOK (s.step cfg r) :=
-  (step_forest cfg r s hr ⟨hk, hd, he, hc⟩).2.2.2
+theorem step_creatorOK (cfg : KConfig) (r : Req) (s : KState)
+    (hk : KeysNodup s) (he : CreatorsExist s) (hc : CreatorOK s) : CreatorOK (s.step cfg r) :=
+  (step_forest cfg r s ⟨hk, he, hc⟩).2.2
 
-theorem run_forest (h : List (KConfig × Req)) (s : KState) (hh : NoRootDetach h) (hp : Forest s) :
-    Forest (s.run h) :=
-  (forest_iff _).2 (run_skStable skStable_ok h s ((forest_iff _).1 hp) hh)
+theorem run_forest (h : List (KConfig × Req)) (s : KState) (hp : Forest s) : Forest (s.run h) :=
+  (forest_iff _).2 (run_skStable skStable_ok h s ((forest_iff _).1 hp))
 
-theorem run_creatorOK (h : List (KConfig × Req)) (s : KState) (hh : NoRootDetach h)
-    (hk : KeysNodup s) (hd : DepsKindOK s) (he : CreatorsExist s) (hc : CreatorOK s) : CreatorOK (s.run h) :=
-  (run_forest h s hh ⟨hk, hd, he, hc⟩).2.2.2
+theorem run_creatorOK (h : List (KConfig × Req)) (s : KState)
+    (hk : KeysNodup s) (he : CreatorsExist s) (hc : CreatorOK s) : CreatorOK (s.run h) :=
+  (run_forest h s ⟨hk, he, hc⟩).2.2
 
-/-- After every history without a `detach` request for the root: the local invariant of
+/-- After every history of accepted and rejected requests: the local invariant of
 `_check_consistency`, one row per key, no dangling creator. -/
-theorem forest_reachable_partial (h : List (KConfig × Req)) (hh : NoRootDetach h) : Forest (KState.init.run h) :=
-  run_forest h KState.init hh init_forest
+theorem forest_reachable (h : List (KConfig × Req)) : Forest (KState.init.run h) :=
+  run_forest h KState.init init_forest
 
-theorem creatorOK_reachable_partial (h : List (KConfig × Req)) (hh : NoRootDetach h) :
-    CreatorOK (KState.init.run h) := (forest_reachable_partial h hh).2.2.2
+theorem creatorOK_reachable (h : List (KConfig × Req)) : CreatorOK (KState.init.run h) :=
+  (forest_reachable h).2.2
 
-/-- The statement without the hypothesis on the history. -/
-def CreatorOKReachable : Prop := ∀ h : List (KConfig × Req), CreatorOK (KState.init.run h)
+/-- `Node.detach` of the root is rejected: the CHECKs of the `node` table (`kind != 'root' OR
+creator IS i`, `kind != 'root' OR NOT detached`) refuse the write. -/
+theorem detach_root_rejected (s : KState) (hr : RootAttached s) : ∃ e, s.detach rootKey = .error e := by
+  obtain ⟨r, hf, _, hc⟩ := hr
+  have hall : s.creatorAllowed rootKey none true = false := by
+    unfold KState.creatorAllowed
+    rw [if_pos (show rootKey.kind = Kind.root from rfl)]
+    simp
+  refine ⟨.integrity, ?_⟩
+  unfold KState.detach
+  simp only [hf]
+  unfold KState.detachCore
+  simp only [hc, Option.isSome_some, if_true]
+  unfold KState.setCreator
+  simp [hall, bind, Except.bind, throw, throwThe, MonadExceptOf.throw]
 
-/-- It is false of the model: `detach` of the root is accepted (`Node.detach` has no guard; in the
-code the `CHECK (kind != 'root' OR NOT detached)` constraint of the `node` table rejects the write,
-the model's `creatorAllowed` does not have that check) and leaves a detached root. -/
-theorem creatorOK_reachable_negation : ¬ CreatorOKReachable := by
-  intro hall
-  have h := hall [({}, Req.detach rootKey)]
-  obtain ⟨r, hr, hd, _⟩ := h.1
-  have hbad : (KState.init.run [({}, Req.detach rootKey)]).isDetached rootKey = true := by decide
-  unfold KState.isDetached at hbad
-  rw [hr] at hbad
-  simp only at hbad
-  rw [hd] at hbad
-  cases hbad
+/-- As a request it leaves the state as it is. -/
+theorem detach_root_request_noop (s : KState) (cfg : KConfig) (hr : RootAttached s) :
+    s.step cfg (.detach rootKey) = s := by
+  obtain ⟨e, he⟩ := detach_root_rejected s hr
+  unfold KState.step
+  simp [KState.exec, unitOut, he, bind, Except.bind]
 
 /-! ## The operations that write `creator` / `detached`, one by one -/
 
-/-- `Node.detach` (+ `Step.detach`) of any node but the root. -/
-theorem detach_forest (k : Key) (hk : k ≠ rootKey) : Preserves Forest (fun s => s.detach k) :=
-  fun s s' hp h => (forest_iff _).2 (skStable_ok.detach_pq k hk s s' ((forest_iff _).1 hp) h)
+/-- `Node.detach` (+ `Step.detach`). -/
+theorem detach_forest (k : Key) : Preserves Forest (fun s => s.detach k) :=
+  fun s s' hp h => (forest_iff _).2 (skStable_ok.detach_preserves k s s' ((forest_iff _).1 hp) h)
 
 /-- `Node.reattach` (+ `Step.reattach`). -/
 theorem reattach_forest (k c : Key) : Preserves Forest (fun s => s.reattach k c) :=
-  fun s s' hp h => (forest_iff _).2 (skStable_ok.reattach_pq k c s s' ((forest_iff _).1 hp) h)
+  fun s s' hp h => (forest_iff _).2 (skStable_ok.reattach_preserves k c s s' ((forest_iff _).1 hp) h)
 
 /-- `Trellis.create`, fresh or recycling. -/
 theorem create_forest (k : Key) (creator : Option Key) (init : Init) (hi : InitOK init) :
     Preserves Forest (fun s => s.create k creator init) :=
-  fun s s' hp h => (forest_iff _).2 (skStable_ok.create_pq k creator init hi s s' ((forest_iff _).1 hp) h)
+  fun s s' hp h => (forest_iff _).2 (skStable_ok.create_preserves k creator init hi s s' ((forest_iff _).1 hp) h)
 
 /-- `register_static_tree`: the tree node and the hand-over of the files of its creator. -/
 theorem registerStaticTree_forest (cfg : KConfig) (creator : Key) (path : String) (s : KState)
@@ -346,7 +338,7 @@ theorem registerStaticTree_forest (cfg : KConfig) (creator : Key) (path : String
 /-- One pass of `Trellis.delete_detached`, and the whole cleanup. -/
 theorem deletePass_forest (s : KState) (r : KState × List Key × Bool) (hp : Forest s) (h : s.deletePass = .ok r) :
     Forest r.1 :=
-  (forest_iff _).2 (skStable_ok.deletePass_pq s r ((forest_iff _).1 hp) h)
+  (forest_iff _).2 (skStable_ok.deletePass_preserves s r ((forest_iff _).1 hp) h)
 
 theorem deleteDetached_forest : Preserves Forest (fun s => s.deleteDetached) :=
   fun s s' hp h => (forest_iff _).2 (skStable_ok.deleteDetached_preserves s s' ((forest_iff _).1 hp) h)
@@ -450,76 +442,51 @@ theorem forestWF_iff (s : KState) : ForestWF s ↔ PQ Sk.Tree s := by
   unfold ForestWF Sk.Tree
   constructor
   · rintro ⟨h1, h2, h3⟩
-    have hpq := (forest_iff s).1 h1
-    exact ⟨hpq.1, hpq.2, (ar_iff_attachedWF hpq.2).2 h2, (nfc_iff s).2 h3⟩
-  · rintro ⟨h1, h2, h3, h4⟩
-    exact ⟨(forest_iff s).2 ⟨h1, h2⟩, (ar_iff_attachedWF h2).1 h3, (nfc_iff s).1 h4⟩
+    have hpq : Sk.OK s.skel := (forest_iff s).1 h1
+    exact ⟨hpq, (ar_iff_attachedWF hpq).2 h2, (nfc_iff s).2 h3⟩
+  · rintro ⟨h2, h3, h4⟩
+    exact ⟨(forest_iff s).2 h2, (ar_iff_attachedWF h2).1 h3, (nfc_iff s).1 h4⟩
 
-theorem init_forestWF : ForestWF KState.init := (forestWF_iff _).2 ⟨init_depsKindOK', init_tree⟩
+theorem init_forestWF : ForestWF KState.init := (forestWF_iff _).2 init_tree
 
-/-- Every accepted request other than `detach` of the root keeps the whole invariant. -/
-theorem exec_forestWF (cfg : KConfig) (r : Req) (s : KState) (res : KState × String) (hr : r ≠ .detach rootKey)
+/-- Every accepted request keeps the whole invariant. -/
+theorem exec_forestWF (cfg : KConfig) (r : Req) (s : KState) (res : KState × String)
     (hp : ForestWF s) (h : s.exec cfg r = .ok res) : ForestWF res.1 :=
-  (forestWF_iff _).2 (exec_skStable skStable_tree cfg r s res hr ((forestWF_iff _).1 hp) h)
+  (forestWF_iff _).2 (exec_skStable skStable_tree cfg r s res ((forestWF_iff _).1 hp) h)
 
-theorem step_forestWF (cfg : KConfig) (r : Req) (s : KState) (hr : r ≠ .detach rootKey) (hp : ForestWF s) :
-    ForestWF (s.step cfg r) :=
-  (forestWF_iff _).2 (step_skStable skStable_tree cfg r s hr ((forestWF_iff _).1 hp))
+theorem step_forestWF (cfg : KConfig) (r : Req) (s : KState) (hp : ForestWF s) : ForestWF (s.step cfg r) :=
+  (forestWF_iff _).2 (step_skStable skStable_tree cfg r s ((forestWF_iff _).1 hp))
 
-theorem run_forestWF (h : List (KConfig × Req)) (s : KState) (hh : NoRootDetach h) (hp : ForestWF s) :
-    ForestWF (s.run h) :=
-  (forestWF_iff _).2 (run_skStable skStable_tree h s ((forestWF_iff _).1 hp) hh)
+theorem run_forestWF (h : List (KConfig × Req)) (s : KState) (hp : ForestWF s) : ForestWF (s.run h) :=
+  (forestWF_iff _).2 (run_skStable skStable_tree h s ((forestWF_iff _).1 hp))
 
-theorem forestWF_reachable_partial (h : List (KConfig × Req)) (hh : NoRootDetach h) : ForestWF (KState.init.run h) :=
-  run_forestWF h KState.init hh init_forestWF
+/-- After every history: the local invariant, well-founded creator links among attached nodes, no
+node created by a file. -/
+theorem forestWF_reachable (h : List (KConfig × Req)) : ForestWF (KState.init.run h) :=
+  run_forestWF h KState.init init_forestWF
 
-/-- **C09, first clause, on every reachable state** (histories without a `detach` request for the
-root): a node is marked detached exactly when it is not reachable from the root through creator
-links. -/
-theorem detached_iff_not_reach_reachable_partial (h : List (KConfig × Req)) (hh : NoRootDetach h) :
+theorem attachedWF_reachable (h : List (KConfig × Req)) : AttachedWF (KState.init.run h) :=
+  (forestWF_reachable h).2.1
+
+/-- **C09, first clause, after every history of accepted and rejected requests**: a node is marked
+detached exactly when it is not reachable from the root through creator links. -/
+theorem detached_iff_not_reach_reachable (h : List (KConfig × Req)) :
     ∀ n ∈ (KState.init.run h).nodes, (n.detached = true ↔ ¬ Reach (KState.init.run h) n.key) := by
-  obtain ⟨hf, hwf, _⟩ := forestWF_reachable_partial h hh
-  exact detached_iff_not_reach _ hf.1 hf.2.2.2 hwf
+  obtain ⟨hf, hwf, _⟩ := forestWF_reachable h
+  exact detached_iff_not_reach _ hf.1 hf.2.2 hwf
 
-theorem attached_iff_reach_reachable_partial (h : List (KConfig × Req)) (hh : NoRootDetach h) :
+theorem attached_iff_reach_reachable (h : List (KConfig × Req)) :
     ∀ n ∈ (KState.init.run h).nodes, (n.detached = false ↔ Reach (KState.init.run h) n.key) := by
-  obtain ⟨hf, hwf, _⟩ := forestWF_reachable_partial h hh
-  exact attached_iff_reach _ hf.1 hf.2.2.2 hwf
+  obtain ⟨hf, hwf, _⟩ := forestWF_reachable h
+  exact attached_iff_reach _ hf.1 hf.2.2 hwf
 
-/-- The statement of the clause without the hypothesis on the history. -/
-def DetachedIffUnreachable : Prop :=
-  ∀ h : List (KConfig × Req), ∀ n ∈ (KState.init.run h).nodes,
-    (n.detached = true ↔ ¬ Reach (KState.init.run h) n.key)
-
-/-- False of the model, by the same witness: after `detach` of the root the root is detached and
-(trivially) reachable from itself. -/
-theorem detachedIffUnreachable_negation : ¬ DetachedIffUnreachable := by
-  intro hall
-  have hbad : (KState.init.run [({}, Req.detach rootKey)]).isDetached rootKey = true := by decide
-  unfold KState.isDetached at hbad
-  cases hf : (KState.init.run [({}, Req.detach rootKey)]).find? rootKey with
-  | none =>
-    have : ((KState.init.run [({}, Req.detach rootKey)]).find? rootKey).isSome = true := by decide
-    rw [hf] at this; cases this
-  | some r =>
-    rw [hf] at hbad
-    simp only at hbad
-    have hm := find?_mem _ _ _ hf
-    have := (hall _ r hm.1).1 hbad
-    rw [hm.2] at this
-    exact this Reach.root
-
-/-! Non-vacuity: the hypotheses of the main theorems are met by the empty workflow and by a
-history that creates, detaches and cleans up. -/
+/-! Non-vacuity: the hypotheses of the main theorems are met by the empty workflow, and the
+history theorems have no hypothesis left. -/
 
 example : Forest KState.init ∧ ForestWF KState.init := ⟨init_forest, init_forestWF⟩
 
-example : NoRootDetach [({}, Req.define rootKey { cmd := "a" }), ({}, Req.detach (stepKey "a")),
-    ({}, Req.deleteDetached)] := by
-  intro cr hcr
-  simp only [List.mem_cons, List.not_mem_nil, or_false] at hcr
-  rcases hcr with rfl | rfl | rfl <;> intro h <;> cases h
-
 example : AttachedWF KState.init := init_forestWF.2.1
+
+example : RootAttached KState.init := init_forest.2.2.1
 
 end StepupModel.K
